@@ -49,22 +49,12 @@ void check_C11(Src &s, Ctx &ctx) {
     ctx.log("route: " + rname);
     ObserveOpts oo; oo.out_begin = b; oo.out_end = e;
     { std::string dd = same(S, oo, C); ctx.count("copy-digest"); VF_REQUIRE("C11.copy-differs", dd.empty(), rname << ": copy differs from " << (range ? "the restriction of the source" : "the source") << ": " << dd); }
-    cp.spec.outs = e - b;
-    // independence: mutate one side, the other must stay bitwise identical
-    Digest before_src = observe(S), before_cp = observe(C);
-    bool mutate_copy = s.chance(1, 2); int nm = 1 + s.pick(4); int executed = 0;
-    static const std::vector<int> mkinds = {OP_LOAD, OP_RELOAD, OP_REF_SURP, OP_REF_ANISO, OP_UPDATE, OP_CLEAR_REF, OP_MERGE, OP_SET_COEFF, OP_BEGIN_CONSTR, OP_CANDIDATES, OP_LOAD_CONSTR, OP_FINISH_CONSTR,
-                                            OP_SET_TRANSFORM, OP_CLEAR_TRANSFORM, OP_CLEAR_LIMITS};
-    // values model of the copy: outputs b..e-1 of the source model -> the copy's value function is the source's shifted by b (salt/k offsets)
-    struct Shifted { };
-    if (!range) {
-        GridState &victim = mutate_copy ? cp : st;
-        victim.ctx = &ctx; ctx.log(std::string("-- mutations applied to the ") + (mutate_copy ? "copy" : "source"));
-        for (int i = 0; i < nm; i++) { Op op = decode_op(s, victim.spec, mkinds); if (i == 0 && victim.g.getNumNeeded() > 0 && !victim.constructing) op.kind = OP_LOAD; if (apply_op(victim, op)) executed++; }
-        victim.ctx = nullptr;
-        std::string dd = mutate_copy ? digest_diff(before_src, observe(S), true) : digest_diff(before_cp, observe(C), true);
-        ctx.count("independence"); VF_REQUIRE("C11.not-independent", dd.empty(), "mutating the " << (mutate_copy ? "copy" : "source") << " changed the " << (mutate_copy ? "source" : "copy") << ": " << dd);
-    } else if (st.constructing && !st.target.empty()) {
+    cp.spec.outs = e - b; cp.vm.k0 = st.vm.k0 + b;   // the copy's model is the source's model of the outputs it kept
+    // dictionary of the copy: the kept outputs of every recorded sample
+    if (range) for (auto &kv : cp.dict) { std::vector<double> v(kv.second.begin() + b, kv.second.begin() + e); kv.second.swap(v); }
+    int executed = 0;
+    bool pending = st.g.getNumLoaded() > 0 && st.g.getNumNeeded() > 0;
+    if (range && st.constructing && !st.target.empty()) {
         // common continuation for range copies under construction: deliver the same new samples to both (the copy gets the slice b..e) and finish;
         // parked data restricted correctly <=> the restricted digests agree again
         std::vector<double> x; int d = st.spec.dims; size_t nt = st.target.size() / (size_t)d; std::set<Coord> have;
@@ -78,9 +68,35 @@ void check_C11(Src &s, Ctx &ctx) {
         st.g.finishConstruction(); cp.g.finishConstruction(); executed = 1;
         std::string dd = same(S, oo, C); ctx.count("range-continuation"); VF_REQUIRE("C11.range-copy-construction-data", dd.empty(), rname << ": after a common continuation the copy is no longer the restriction of the source: " << dd);
         ctx.label("range:construction-continuation");
+    } else {
+        // (a) independence: a script of mutations is applied to one side, the other side must stay bitwise identical;
+        // (b) equivalence: the same script is then applied to the other side as well, and the two must agree again (a copy must BEHAVE like its source, not only look like it:
+        //     state that no getter shows - pending tensor sets, value storage sizes - only matters for what happens next). Range copies use the kept outputs of the same model
+        //     and only operations that do not depend on which outputs exist.
+        Digest before_src = observe(S), before_cp = observe(C);
+        bool mutate_copy = s.chance(1, 2); int nm = 1 + s.pick(4);
+        static const std::vector<int> mkinds = {OP_LOAD, OP_RELOAD, OP_REF_SURP, OP_REF_ANISO, OP_UPDATE, OP_CLEAR_REF, OP_MERGE, OP_SET_COEFF, OP_BEGIN_CONSTR, OP_CANDIDATES, OP_LOAD_CONSTR, OP_FINISH_CONSTR,
+                                                OP_SET_TRANSFORM, OP_CLEAR_TRANSFORM, OP_CLEAR_LIMITS};
+        static const std::vector<int> rkinds = {OP_LOAD, OP_LOAD, OP_UPDATE, OP_UPDATE, OP_CLEAR_REF, OP_SET_TRANSFORM, OP_CLEAR_TRANSFORM, OP_CLEAR_LIMITS};
+        std::vector<Op> script;
+        for (int i = 0; i < nm; i++) { Op op = decode_op(s, st.spec, range ? rkinds : mkinds); if (i == 0 && st.g.getNumNeeded() > 0 && !st.constructing) op.kind = OP_LOAD; script.push_back(op); }
+        GridState &victim = mutate_copy ? cp : st; GridState &other = mutate_copy ? st : cp;
+        victim.ctx = &ctx; ctx.log(std::string("-- mutations applied to the ") + (mutate_copy ? "copy" : "source"));
+        std::vector<char> ran; for (auto &op : script) { bool r = apply_op(victim, op); ran.push_back(r); if (r) executed++; }
+        victim.ctx = nullptr;
+        { std::string dd = mutate_copy ? digest_diff(before_src, observe(S), true) : digest_diff(before_cp, observe(C), true);
+          ctx.count("independence"); VF_REQUIRE("C11.not-independent", dd.empty(), "mutating the " << (mutate_copy ? "copy" : "source") << " changed the " << (mutate_copy ? "source" : "copy") << ": " << dd); }
+        if (executed > 0 && s.chance(3, 4)) {
+            other.ctx = &ctx; ctx.log(std::string("-- the same script applied to the ") + (mutate_copy ? "source" : "copy"));
+            bool same_course = true; for (size_t i = 0; i < script.size(); i++) { bool r = apply_op(other, script[i]); if (r != (bool)ran[i]) same_course = false; }
+            other.ctx = nullptr;
+            VF_REQUIRE("C11.copy-behaves-differently", same_course, rname << ": the same operations are legal on one of source / copy and not on the other");
+            std::string dd = same(S, oo, C); ctx.count("equivalence");
+            VF_REQUIRE("C11.copy-behaves-differently", dd.empty(), rname << ": after the same " << executed << " operation(s) on both, the copy is no longer " << (range ? "the restriction of the source" : "equal to the source") << ": " << dd);
+            ctx.label("equivalence-continuation");
+        }
     }
     ctx.label(std::string("fam:") + (S.empty() ? "empty" : fam_name(st.spec.family))); ctx.label("route:" + std::to_string(route < 3 ? route : 3)); if (range) ctx.label("range-copy");
-    bool pending = st.g.getNumLoaded() > 0 && st.g.getNumNeeded() > 0;
     if (pending) ctx.label("src:pending"); if (st.constructing) ctx.label("src:constructing");
     ctx.nontrivial = (range || executed > 0) && (pending || st.constructing || st.n_refine > 0 || !st.spec.ta.empty());
 }
